@@ -189,6 +189,10 @@ void Search::go()
     }
     iter_search();
 
+    // the search may be stopped before the first iteration completes
+    if (_best_move == NO_MOVE && !_root_moves.empty())
+        _best_move = _root_moves.front();
+
     ASSERT(_best_move != NO_MOVE);
     sync_cout << "bestmove " << _position.uci(_best_move) << sync_endl;
 }
